@@ -124,6 +124,16 @@ def do_render(req):
                 apps.append({'args': args, 'argstrs': apps[-1]['argstrs'], 'out': app.pretty(opts), 'ok': True})
             except Exception as e:   # noqa
                 apps.append({'args': args, 'argstrs': [], 'out': type(e).__name__, 'ok': False})
+            # ... and by applying the notation partially (last hole only) and instantiating the open holes afterwards
+            try:
+                from frozendict import frozendict
+                from proof_generation.pattern import Instantiate
+                last = N.arity - 1
+                app = Instantiate(N.definition, frozendict({last: pa[last]})).instantiate({i: pa[i] for i in range(last)})
+                if app == N(*pa):          # only when this really is the same application (the holes are phi_0 .. phi_{n-1})
+                    apps.append({'args': args, 'argstrs': apps[-1]['argstrs'], 'out': app.pretty(opts), 'ok': True})
+            except Exception as e:   # noqa
+                pass
     return {'label': req['label'], 'arity': N.arity, 'definition': B.to_json(N.definition), 'holes': holes, 'format': N.format_str, 'apps': apps}
 
 
